@@ -45,7 +45,8 @@ def main():
         if reason is None:
             print("NO REASON FOR", k, file=sys.stderr)
             reason = "UNREVIEWED"
-        g = ["char_boundary_range"] if k == "call|std::option::Option::<T>::expect|usize" else ["none"]
+        g = {"call|std::option::Option::<T>::expect|usize": ["char_boundary_range"], "index|str": ["str_index"],
+             "call|std::result::Result::<T, E>::unwrap|DeepEx<T>": ["new_total"]}.get(k, ["none"])
         out.append({"key": k, "max": len(by[k]), "guards": g, "reason": reason,
                     "where": sorted({s["fn"].split("::")[-1] for s in by[k]})[:8]})
     path = os.path.join(HERE, "spec", "panic_audit.json")
